@@ -977,7 +977,7 @@ impl Transaction {
             .from
             .iter()
             .map(|slip| slip.utxoset_key)
-            .collect::<Vec<_>>()
+            .collect::<AHashSet<_>>()
             .len()
             != self.from.len()
         {
